@@ -403,11 +403,15 @@ func (g *gctx) genFile(fi int) *JFile {
 				base = "/" + strings.ToLower(ci.name) + "s"
 				f.Annotations = append(f.Annotations, fmt.Sprintf("@RequestMapping(value = %q)", base))
 			}
+			if len(f.Annotations) == 2 && t.Bool(1, 4) {
+				// Java does not order annotations: the mapping may be written before the controller annotation
+				f.Annotations[0], f.Annotations[1] = f.Annotations[1], f.Annotations[0]
+			}
 			// other class-level annotations after the controller annotation, before or after the mapping
 			if t.Bool(1, 3) {
 				extra := g.pick([]string{"@CrossOrigin(\"*\")", "@SuppressWarnings(\"unchecked\")", "@Secured(\"ROLE_X\")", "@Api(tags = \"x\")", "@Validated", "@Scope(\"request\")"})
 				if len(f.Annotations) > 1 && t.Bool(1, 2) {
-					f.Annotations = append(f.Annotations[:1], append([]string{extra}, f.Annotations[1:]...)...)
+					f.Annotations = append(append([]string{}, f.Annotations[:1]...), append([]string{extra}, f.Annotations[1:]...)...)
 				} else {
 					f.Annotations = append(f.Annotations, extra)
 				}
